@@ -3749,7 +3749,7 @@ def svd(
         qtotal_L = a.chinfo.make_valid(a.qtotal - qtotal_R)
     elif qtotal_R is None:
         qtotal_R = a.chinfo.make_valid(a.qtotal - qtotal_L)
-    elif np.any(a.qtotal != a.chinfo.make_valid(qtotal_L + qtotal_R)):
+    elif np.any(a.qtotal != a.chinfo.make_valid(np.asarray(qtotal_L) + np.asarray(qtotal_R))):
         raise ValueError('The entries of `qtotal_LR` have to add up to ``a.qtotal``!')
     qtotal_LR = qtotal_L, qtotal_R
 
